@@ -293,7 +293,6 @@ func (gb *gcpBalancer) UpdateClientConnState(ccs balancer.ClientConnState) error
 		// The pool is empty (nothing could be created so far or every SubConn was
 		// shut down). gb.mu is already held here, so newSubConn() must not be used.
 		gb.enforceMinSize()
-		return nil
 	}
 
 	for _, scRef := range gb.scRefs {
